@@ -127,7 +127,7 @@ CHECKS = {
              "returns in < 0.9 s even at the start of a retry wait; no ping in a 1.5 s quiet window after Stop() returned; <= 1 ping per tick "
              "after repeated Start. non-trivial = a round with a failure (exhaustive unit), >= 2 rounds or a Stop inside a retry wait (sequences)",
         assumptions=["the first call is Start (Stop before Start is outside the property's domain)", "timing bounds are one-sided with >= 10% slack on the library's 1 s constant"],
-        units=[enum("TestC19_RoundsExhaustive", 4, 4), rapid("TestC19_Sequences", 1, 1, 2, 8), rapid("TestC19_ShutdownPaths", 1, 1, 2, 8)],
+        units=[enum("TestC19_RoundsExhaustive", 4, 4), rapid("TestC19_Sequences", 1, 1, 2, 8), rapid("TestC19_ShutdownPaths", 1, 1, 2, 8), rapid("TestC19_OverlappingStops", 24, 600, 2, 8)],
     ),
     "C01": dict(
         level="fault_enumeration",
@@ -405,24 +405,24 @@ _MORE = {
     "C10": "Later additions: leadership is taken through the real handler (stream.NewLeaderElection(...).OnBecomeLeader) with a generated number of "
            "followers registered before the callback runs. Round 5: unit RegisterRPC (real RPC server and clients on localhost: registrations arrive in a generated order, followers register again; the leader's list - from which the monitor numbers the followers - stays in join order). Round 6: unit Handover (assignments and leader hand-overs on a follower-side service discovery: announcements = assignments with repeats removed); Couchbase unit: swap (an instance document expires while another instance registers within one monitor round). Round 7: relay unit: 0-3 numberings announced on a fresh dynamic membership before the first GetInfo. Round 8: the leader unit puts the partition rule on top of the numbering (real discovery object per member, 64 / 128 / 1024 vBuckets).",
     "C11": "Later additions: mode busdelay (real Dcp, bus publications during close / delay / reopen with the configured delay); gate variant of "
-           "direct mode (rollback mitigation polling a simulated cluster, an event parked in the gate when the first burst begins). Round 5: unit ReopenHistory (history engine, oracle C11: after every rebalance the live stream set is the whole range of the latest membership; a transient end of a freshly requested stream from inside AfterStreamStart). Round 6: units FollowMembership (executor of C09's StreamFollowsMembership with C11's clause) and CouchbaseSwap. Round 7: reopen histories in which the server ends the last stream for good (finite end / filter empty) while the rebalance closes the others - the client goes on.",
+           "direct mode (rollback mitigation polling a simulated cluster, an event parked in the gate when the first burst begins). Round 5: unit ReopenHistory (history engine, oracle C11: after every rebalance the live stream set is the whole range of the latest membership; a transient end of a freshly requested stream from inside AfterStreamStart). Round 6: units FollowMembership (executor of C09's StreamFollowsMembership with C11's clause) and CouchbaseSwap. Round 7: reopen histories in which the server ends the last stream for good (finite end / filter empty) while the rebalance closes the others - the client goes on. Round 8: application handlers of the lifecycle callbacks that take 5-30 ms (generated callback, weighted towards AfterRebalanceStart under dynamic membership); every callback records when it returned, and within a cycle each one must be emitted after the one before it has returned.",
     "C12": "Later additions: rebalances and STREAM_END from inside CloseStream in the histories; a transient end injected from the AfterStreamStart "
-           "callback of a rebalance's reopen; finite mode with immediate acknowledgement and transient ends at the sampled end. Round 5: a third of the histories end with a shutdown by cancel during which the server ends another vBucket's stream with a transient cause (no new request, active count as expected). Round 6: active count and client liveness inside the 1 s retry pause of a refused re-request, with every other vBucket ending for good meanwhile. Round 7: a fifth of the histories on the file backend with a file listing every vBucket.",
+           "callback of a rebalance's reopen; finite mode with immediate acknowledgement and transient ends at the sampled end. Round 5: a third of the histories end with a shutdown by cancel during which the server ends another vBucket's stream with a transient cause (no new request, active count as expected). Round 6: active count and client liveness inside the 1 s retry pause of a refused re-request, with every other vBucket ending for good meanwhile. Round 7: a fifth of the histories on the file backend with a file listing every vBucket. Round 8: unit Finite with checkpoint.autoReset default / earliest / latest and a group that has never stored a checkpoint (with latest every vBucket starts at its current end = the sampled end).",
     "C13": "Later additions: server 5.0.0 (serial close); Couchbase heart-beat membership (incl. Close while a monitor round is in flight); a "
            "server-initiated stream end during Close; pings that start failing shortly before Close (Close inside the retry wait of a failing "
            "health round); after the quiet window no goroutine may execute library code; units StartStop (Start();Stop() back to back at the "
            "checkpoint schedule's and the rollback mitigation's own API) and Fixed (replays of the three repaired shutdown defects). Round 5: a stream ended for good before Close() whose close request is answered no-such-stream; the client stopping by itself because every stream ended. Round 6: a scrape in flight at Close (API on); unit SerialCloseReal (real client on a node that behaves like a server below 5.5.0: 0-3 rebalances, then Close - F16); F14 / F16 replays in Fixed.",
     "C14": "Later additions: library-internal keys arrive as mutation / deletion / expiration; the connector's own documents configured in the "
-           "streamed bucket / another bucket / a file. Round 5: in half of the histories reserved-key events also arrive while an earlier document event of the vBucket is unacknowledged. Round 6: a quarter of the histories in finite mode over events the server already holds (reserved-key tails). Round 7: failovers and transient stream ends in the filter histories.",
+           "streamed bucket / another bucket / a file. Round 5: in half of the histories reserved-key events also arrive while an earlier document event of the vBucket is unacknowledged. Round 6: a quarter of the histories in finite mode over events the server already holds (reserved-key tails). Round 7: failovers and transient stream ends in the filter histories. Round 8: groups with names of 40-205 bytes that share their first 40-193 bytes (boundary-weighted 187-190) and differ only at the end; membership keys for names up to 188 bytes (the longest whose heart-beat key fits 250 bytes).",
     "C15": "Later additions: fault classes end_during_open, partial_load, file_dump {partial, corrupt, isdir, notdir}, seq_omit (a successful "
            "sequence-number query without an entry for an assigned vBucket). Round 5: fault class rebalance_fault (fault-free start-up; load or sequence-number failure at the reopen of a rebalance). Round 7: the kind of error the refused re-requests fail with (plain / socket closed / state changed / too slow / disconnected / backfill failed).",
     "C16": "Later additions: scrapes from inside the lifecycle callbacks ASStop / BSStop / ARS / BRE / BSStart of a rebalance; a third of the "
            "histories with dcp.listener.skipUntil (dropped events are not 'accepted'); a share of the histories scrapes through the real HTTP API "
-           "(child process: GET /metrics parsed from the exposition text instead of Collect(), GET /states/offset compared with the tracked positions). Round 5: transient stream ends and failovers in the histories (active-stream gauge after a re-request). Round 6: non-dynamic membership types with rebalances triggered twice within the (80 ms) delay.",
+           "(child process: GET /metrics parsed from the exposition text instead of Collect(), GET /states/offset compared with the tracked positions). Round 5: transient stream ends and failovers in the histories (active-stream gauge after a re-request). Round 6: non-dynamic membership types with rebalances triggered twice within the (80 ms) delay. Round 8: a scrape between the arrival of new membership information and the reaction of the stream (half of the rebalances): member number, group size and range are those the stream still streams with.",
     "C17": "Later additions: zero-padded numbers in plain and unit spellings. Round 5: every boolean spelling for the metadata secureConnection override, main setting both ways. Round 6: empty-string overrides. Round 7: environment values containing dollar signs.",
     "C18": "Later additions: a version text the parser itself rejects, a reply without the field, an error document: the client must not start. Round 6: unit SerialClose (interface-level client with asynchronous end notifications: below 5.5.0 the next close is not issued before the previous stream's end reached its observer; from 5.5.0 on closes overlap); the wire unit's node refuses send_stream_end_on_client_close_stream below 5.5.0. Round 7: the serial unit varies dcp mode (finite) and checkpoint type.",
     "C19": "Later additions: slow pings (a round longer than five retry waits); failure kinds plain error / deadline exceeded / canceled / "
-           "(partial result, error). Round 5: unit ShutdownPaths (real Dcp.Start in a child process stopped by Close / signal / the end of every stream: no ping after Start returned). Round 6: production-like intervals (2.5-5 s): Stop() shortly after a round that recovered, and the round after it.",
+           "(partial result, error). Round 5: unit ShutdownPaths (real Dcp.Start in a child process stopped by Close / signal / the end of every stream: no ping after Start returned). Round 6: production-like intervals (2.5-5 s): Stop() shortly after a round that recovered, and the round after it. Round 8: unit OverlappingStops (in-process, 14 checkers per case): 1-4 Stop() calls from different goroutines, the first while a ping is in flight with a tick queued behind it; a ping that begins after ANY of them has returned is a violation.",
     "C20": "Later additions: unit CheckpointRead (cbMetadata.Load in a child process against silent / erroring nodes and attribute-less documents); "
            "after every wire case with a late or missing reply no closure of the wrappers may be blocked on a gocbcore goroutine. Round 5: unit SeqNosComplete (64..1024 vBuckets, 1-3 nodes, back-to-back GetVBucketSeqNos calls; the result holds every vBucket with the node's value at the moment of return). Round 6: SeqNosComplete with one node answering TMPFAIL 0-150 ms after the others (the call must fail). Round 7: op OpenStreamAfterRollback (first request answered ROLLBACK, the generated behaviour applies to the re-request).",
     "C03": "Later additions (round 5): unit RebalanceHistory (history engine with oracle C03 and rebalances; 1-3 events delivered on the re-requested streams from inside AfterStreamStart, while the rebalance is still completing).",
